@@ -85,27 +85,24 @@ def spec_update_best_results(count, new_r, new_c, new_k, best_r, best_c, best_k,
     maps = [m for m in itertools.permutations(range(n), count) if all(row_eq(t, m[t]) for t in range(count))]
     out['pairs'] = bool(maps)
 
+    def rank(x):
+        x = float(x)
+        return -math.inf if math.isnan(x) else x
+
     def topk(m, residual):
         for j in range(n):
             if j in m:
                 continue
             for t in range(count):
-                a, b = float(res_r[t]), float(all_r[j])
-                good = math.isnan(b) or (not math.isnan(a) and a >= b)
+                good = rank(res_r[t]) >= rank(all_r[j])          # NaN ranks as -inf
                 if residual:
-                    good = good or math.isnan(a)
+                    good = good or math.isnan(float(res_r[t]))
                 if not good:
                     return False
         return True
     out['topk'] = any(topk(m, False) for m in maps)
     out['topk.residual'] = any(topk(m, True) for m in maps)
-    mono = True
-    for o in best_r:
-        o = float(o)
-        if math.isnan(o):
-            continue
-        if not any((not math.isnan(float(a))) and float(a) >= o for a in res_r):
-            mono = False
+    mono = all(any(rank(a) >= rank(o) for a in res_r) for o in best_r)
     out['best_never_decreases'] = mono
     return out
 
